@@ -43,7 +43,7 @@ thread_local! {
 /// names its input.
 pub fn mark(line: &str) {
     use std::io::{Seek, SeekFrom, Write};
-    LAST_MARK_MS.store(START.get_or_init(std::time::Instant::now).elapsed().as_millis() as u64, std::sync::atomic::Ordering::Relaxed);
+    LAST_MARK_MS.store(START.get_or_init(std::time::Instant::now).elapsed().as_millis() as u64 + 1, std::sync::atomic::Ordering::Relaxed);
     MARK.with(|m| {
         if let Some(f) = m.borrow_mut().as_mut() {
             let _ = f.seek(SeekFrom::Start(0));
